@@ -188,7 +188,7 @@ theorem written_iff (head : Bool) (ops : List Op) (hv : ValidOps ops) :
   · rw [h]; simp [init, W.written]
   · rw [h]
     have : t.code ≠ 0 := code_ne_zero t (hv t (by simp [he]))
-    simp only [W.written, bne_iff_ne, ne_eq, this, not_false_eq_true, true_iff]
+    simp only [W.written, Gen.writerUnwrittenStatus, bne_iff_ne, ne_eq, this, not_false_eq_true, true_iff]
     exact ⟨UEv.hdr t.code, by simp, rfl⟩
 
 /-- (2d) nothing is sent before the first trigger, and the status never changes afterwards -/
